@@ -8,7 +8,7 @@ from . import celx, evalx
 from .celx import ct
 from .core import Ctx, read_dump, pmap
 
-INV = "SPECIFICATION Spec\nINVARIANT ArithKeepsType\nINVARIANT PredicatesAreBool\nINVARIANT TypeOfType\nCHECK_DEADLOCK FALSE\n"
+INV = "SPECIFICATION Spec\nCONSTANT TIER = \"quick\"\nINVARIANT ArithKeepsType\nINVARIANT PredicatesAreBool\nINVARIANT TypeOfType\nCHECK_DEADLOCK FALSE\n"
 NAMES = ["int", "uint", "double", "bool", "string", "bytes", "list", "map", "null_type", "timestamp", "duration", "type"]
 CLASS = {"int": ct.IntType, "uint": ct.UintType, "double": ct.DoubleType, "bool": ct.BoolType, "string": ct.StringType,
          "bytes": ct.BytesType, "list": ct.ListType, "map": ct.MapType, "timestamp": ct.TimestampType, "duration": ct.DurationType}
@@ -65,7 +65,7 @@ def _replay(item):
 
 
 def run(ctx: Ctx) -> int:
-    r = ctx.tlc("MC_C13", INV, dump=True, name="typed roots, nested once")
+    r = ctx.tlc("MC_C13", INV.replace("quick", ctx.tier), dump=True, name="typed roots, nested once")
     states = [s for s in read_dump(r.dump) if s["ty"] != "init"]
     items = [(s["prog"], s["exp"], s["ty"]) for s in states]
     nobs = 0
